@@ -1433,3 +1433,848 @@ Proof.
       * eexists. split; [left; reflexivity|cbn; lia].
       * eexists. split; [right; left; reflexivity|cbn; lia].
 Qed.
+
+(* ====================================================================================
+   The text codec reads back (same proof as in C10/Proofs.v, over the transcription in Model.Text)
+   ==================================================================================== *)
+Module TextProofs.
+Import Text.
+
+(* ================= str(int) / int(str) ================= *)
+
+Lemma int_of_digits_app : forall l c, int_of_digits (l ++ [c]) = int_of_digits l * 10 + (c - 48).
+Proof. intros l c. unfold int_of_digits. rewrite fold_left_app. reflexivity. Qed.
+
+Definition digit_str (d : str) : Prop := d <> [] /\ forallb is_digit d = true.
+
+Lemma dig_spec : forall f n, 0 <= n -> n < 2 ^ Z.of_nat (S f) ->
+  digit_str (dig (S f) n) /\ int_of_digits (dig (S f) n) = n.
+Proof.
+  induction f as [|f IH]; intros n H0 H1.
+  - change (2 ^ Z.of_nat 1) with 2 in H1. cbn [dig].
+    destruct (n <? 10) eqn:E; [|lia].
+    split; [split; [discriminate|] |].
+    + cbn [forallb]. unfold is_digit. lia.
+    + unfold int_of_digits. cbn [fold_left]. lia.
+  - remember (S f) as g eqn:Hg. cbn [dig]. destruct (n <? 10) eqn:E.
+    + split; [split; [discriminate|] |].
+      * cbn [forallb]. unfold is_digit. lia.
+      * unfold int_of_digits. cbn [fold_left]. lia.
+    + assert (Hpow : 2 ^ Z.of_nat (S g) = 2 * 2 ^ Z.of_nat g).
+      { rewrite Nat2Z.inj_succ. rewrite Z.pow_succ_r by lia. reflexivity. }
+      assert (Hd : 0 <= n / 10) by (apply Z.div_pos; lia).
+      assert (Hlt : n / 10 < 2 ^ Z.of_nat g).
+      { apply Z.div_lt_upper_bound; [lia|]. lia. }
+      destruct (IH (n / 10) Hd Hlt) as [[Hne Hall] Hval].
+      pose proof (Z.mod_pos_bound n 10 ltac:(lia)) as Hm.
+      split; [split|].
+      * intro Hc. apply app_eq_nil in Hc. destruct Hc as [_ Hc]. discriminate.
+      * rewrite forallb_app. rewrite Hall. cbn [forallb]. unfold is_digit. lia.
+      * rewrite int_of_digits_app. rewrite Hval.
+        pose proof (Z.div_mod n 10 ltac:(lia)) as Hdm. lia.
+Qed.
+
+Lemma digits_spec : forall n, 0 <= n -> digit_str (digits n) /\ int_of_digits (digits n) = n.
+Proof.
+  intros n H. unfold digits. apply dig_spec; [assumption|].
+  rewrite Nat2Z.inj_succ. rewrite Z2Nat.id by apply Z.log2_nonneg.
+  destruct (Z.eq_dec n 0) as [->|Hn].
+  - cbn. lia.
+  - apply Z.log2_spec. lia.
+Qed.
+
+Lemma parse_nat_digits : forall d, digit_str d -> parse_nat d = Ok (int_of_digits d).
+Proof.
+  intros d [Hne Hall]. unfold parse_nat. destruct d as [|c r]; [congruence|]. rewrite Hall. reflexivity.
+Qed.
+
+Lemma digit_head : forall d, digit_str d -> exists c r, d = c :: r /\ is_digit c = true.
+Proof.
+  intros d [Hne Hall]. destruct d as [|c r]; [congruence|]. exists c, r. split; [reflexivity|].
+  cbn [forallb] in Hall. apply andb_true_iff in Hall. tauto.
+Qed.
+
+Lemma parse_int_digits : forall d, digit_str d -> parse_int d = Ok (int_of_digits d).
+Proof.
+  intros d H. destruct (digit_head d H) as [c [r [-> Hc]]]. unfold parse_int.
+  unfold is_digit in Hc. apply andb_true_iff in Hc. destruct Hc as [Hc1 Hc2].
+  apply Z.leb_le in Hc1. apply Z.leb_le in Hc2.
+  destruct (Z.eqb_spec c 45) as [E1|E1]; [lia|]. destruct (Z.eqb_spec c 43) as [E2|E2]; [lia|].
+  apply parse_nat_digits. assumption.
+Qed.
+
+Lemma parse_int_str_of_int : forall n, parse_int (str_of_int n) = Ok n.
+Proof.
+  intro n. unfold str_of_int. destruct (n <? 0) eqn:E.
+  - destruct (digits_spec (- n) ltac:(lia)) as [Hd Hv].
+    unfold parse_int. replace (45 =? 45) with true by reflexivity.
+    rewrite (parse_nat_digits _ Hd). cbn [bind]. rewrite Hv. f_equal. lia.
+  - destruct (digits_spec n ltac:(lia)) as [Hd Hv]. rewrite (parse_int_digits _ Hd). rewrite Hv. reflexivity.
+Qed.
+
+
+(* ================= the location text codec ================= *)
+
+Definition okc (c : Z) : bool := is_digit c || (c =? 60) || (c =? 62).
+
+Lemma forallb_weaken : forall (f g : Z -> bool) l, (forall x, f x = true -> g x = true) ->
+  forallb f l = true -> forallb g l = true.
+Proof.
+  intros f g l H. induction l as [|x r IH]; cbn [forallb]; [reflexivity|].
+  intro E. apply andb_true_iff in E. destruct E as [E1 E2]. rewrite (H _ E1), (IH E2). reflexivity.
+Qed.
+
+Lemma str_of_int_nonneg : forall n, 0 <= n -> str_of_int n = digits n.
+Proof. intros n H. unfold str_of_int. destruct (n <? 0) eqn:E; [lia|reflexivity]. Qed.
+
+Lemma cmem_okc : forall c s, forallb okc s = true -> okc c = false -> cmem c s = false.
+Proof.
+  intros c s. unfold cmem. induction s as [|x r IH]; cbn [forallb existsb]; [reflexivity|].
+  intros E Hc. apply andb_true_iff in E. destruct E as [E1 E2]. rewrite (IH E2 Hc).
+  destruct (Z.eqb_spec c x) as [->|Hne]; [congruence|reflexivity].
+Qed.
+
+Lemma split1_app : forall c a b, cmem c a = false -> split1 c (a ++ c :: b) = (a, Some b).
+Proof.
+  intros c a b. unfold cmem. induction a as [|x r IH]; cbn [app split1 existsb]; intro H.
+  - rewrite Z.eqb_refl. reflexivity.
+  - apply orb_false_iff in H. destruct H as [H1 H2]. rewrite Z.eqb_sym in H1. rewrite H1.
+    rewrite (IH H2). reflexivity.
+Qed.
+
+Lemma pos_str_chars : forall p, 0 <= tv p -> forallb okc (pos_str p) = true.
+Proof.
+  intros p H. unfold pos_str. rewrite forallb_app. rewrite (str_of_int_nonneg _ H).
+  destruct (digits_spec _ H) as [[_ Hall] _].
+  rewrite (forallb_weaken is_digit okc _ ltac:(intros x Hx; unfold okc; rewrite Hx; reflexivity) Hall).
+  destruct (tk p =? 1); [reflexivity|]. destruct (tk p =? 2); reflexivity.
+Qed.
+
+Definition wf_tpos (p : tpos) : Prop := (tk p = 0 \/ tk p = 1 \/ tk p = 2) /\ 0 <= tv p.
+
+Lemma parse_position_pos_str : forall p, wf_tpos p -> parse_position (pos_str p) = Ok p.
+Proof.
+  intros [k v] [Hk Hv]. cbn [tk tv] in *. unfold pos_str. cbn [tk tv].
+  rewrite (str_of_int_nonneg _ Hv).
+  destruct (digits_spec _ Hv) as [Hd Hval].
+  destruct Hk as [->|[->| ->]].
+  - change (0 =? 1) with false. change (0 =? 2) with false. cbn [app].
+    destruct (digit_head _ Hd) as [c [r [E Hc]]].
+    unfold parse_position. rewrite E. rewrite <- E.
+    unfold is_digit in Hc. apply andb_true_iff in Hc. destruct Hc as [Hc1 Hc2].
+    apply Z.leb_le in Hc1. apply Z.leb_le in Hc2.
+    destruct (Z.eqb_spec c 60) as [E1|E1]; [lia|]. destruct (Z.eqb_spec c 62) as [E2|E2]; [lia|].
+    assert (Hu : str_eqb (digits v) unknown_position_text = false).
+    { rewrite E. unfold str_eqb, unknown_position_text. cbn [list_eqb].
+      destruct (Z.eqb_spec c 85) as [E3|E3]; [lia|reflexivity]. }
+    rewrite Hu. rewrite (parse_int_digits _ Hd). cbn [bind]. rewrite Hval. reflexivity.
+  - change (1 =? 1) with true. cbn [app]. unfold parse_position.
+    change (60 =? 60) with true. cbv iota. rewrite (parse_int_digits _ Hd). cbn [bind]. rewrite Hval. reflexivity.
+  - change (2 =? 1) with false. change (2 =? 2) with true. cbn [app]. unfold parse_position.
+    change (62 =? 60) with false. change (62 =? 62) with true. cbv iota.
+    rewrite (parse_int_digits _ Hd). cbn [bind]. rewrite Hval. reflexivity.
+Qed.
+
+(* the last character of a printed position is a digit *)
+Lemma pos_str_last : forall p, 0 <= tv p -> exists l d, pos_str p = l ++ [d] /\ is_digit d = true.
+Proof.
+  intros p H. unfold pos_str. rewrite (str_of_int_nonneg _ H).
+  destruct (digits_spec _ H) as [[Hne Hall] _].
+  destruct (exists_last Hne) as [l [d E]]. rewrite E in *.
+  exists ((if tk p =? 1 then [60] else if tk p =? 2 then [62] else []) ++ l), d.
+  split; [rewrite app_assoc; reflexivity|].
+  rewrite forallb_app in Hall. apply andb_true_iff in Hall. destruct Hall as [_ Hd].
+  cbn [forallb] in Hd. apply andb_true_iff in Hd. tauto.
+Qed.
+
+Definition wf_tpart (p : tpart) : Prop :=
+  wf_tpos (tps p) /\ wf_tpos (tpe p) /\ tv (tps p) <= tv (tpe p) /\
+  (tst p = 1 \/ tst p = -1 \/ tst p = 0 \/ tst p = 2).
+
+(* characters of a printed part: digits < > [ ] : ( ) + - ?  -- in particular no comma and no brace *)
+Definition partc (c : Z) : bool :=
+  okc c || (c =? 91) || (c =? 93) || (c =? 58) || (c =? 40) || (c =? 41) || (c =? 43) || (c =? 45) || (c =? 63).
+
+Lemma okc_partc : forall x, okc x = true -> partc x = true.
+Proof. intros x H. unfold partc. rewrite H. reflexivity. Qed.
+
+Lemma part_str_chars : forall p, wf_tpart p -> forallb partc (part_str p) = true.
+Proof.
+  intros p [[_ H1] [[_ H2] [_ Hs]]]. unfold part_str. repeat rewrite forallb_app.
+  rewrite (forallb_weaken okc partc _ okc_partc (pos_str_chars _ H1)).
+  rewrite (forallb_weaken okc partc _ okc_partc (pos_str_chars _ H2)).
+  destruct Hs as [->|[->|[->| ->]]]; reflexivity.
+Qed.
+
+Lemma cmem_partc : forall c s, forallb partc s = true -> partc c = false -> cmem c s = false.
+Proof.
+  intros c s. unfold cmem. induction s as [|x r IH]; cbn [forallb existsb]; [reflexivity|].
+  intros E Hc. apply andb_true_iff in E. destruct E as [E1 E2]. rewrite (IH E2 Hc).
+  destruct (Z.eqb_spec c x) as [->|Hne]; [congruence|reflexivity].
+Qed.
+
+Lemma rev_two : forall (l : list Z) a b, rev (l ++ [a; b]) = b :: a :: rev l.
+Proof. intros. rewrite rev_app_distr. reflexivity. Qed.
+
+Lemma parse_single_part_str : forall p, wf_tpart p -> parse_single (part_str p) = Ok p.
+Proof.
+  intros p Hwf. pose proof (part_str_chars p Hwf) as Hchars.
+  destruct Hwf as [Hs [He [Hle Hst]]].
+  pose proof (pos_str_chars _ (proj2 Hs)) as Cs. pose proof (pos_str_chars _ (proj2 He)) as Ce.
+  unfold parse_single.
+  assert (E1 : tl (part_str p) = pos_str (tps p) ++ 58 :: (pos_str (tpe p) ++ [93] ++ strand_str (tst p))).
+  { unfold part_str. cbn [app tl]. reflexivity. }
+  rewrite E1. rewrite (split1_app 58 _ _ (cmem_okc 58 _ Cs eq_refl)). cbn [fst].
+  rewrite (parse_position_pos_str _ Hs). cbn [bind].
+  assert (E2 : part_str p = (91 :: pos_str (tps p)) ++ 58 :: (pos_str (tpe p) ++ 93 :: strand_str (tst p))).
+  { unfold part_str. cbn [app]. reflexivity. }
+  assert (C91 : cmem 58 (91 :: pos_str (tps p)) = false).
+  { unfold cmem. cbn [existsb]. change (58 =? 91) with false. cbn [orb]. exact (cmem_okc 58 _ Cs eq_refl). }
+  rewrite E2 at 1. rewrite (split1_app 58 _ _ C91). cbn [snd].
+  rewrite (split1_app 93 _ _ (cmem_okc 93 _ Ce eq_refl)). cbn [fst].
+  rewrite (parse_position_pos_str _ He). cbn [bind].
+  assert (Hle' : (tv (tpe p) <? tv (tps p)) = false) by lia.
+  destruct (pos_str_last _ (proj2 He)) as [l [d [El Hd]]].
+  assert (Hm2 : char_m2 (part_str p) =
+                Ok (if tst p =? 2 then d else if tst p =? 1 then 43 else if tst p =? -1 then 45 else 63)).
+  { unfold char_m2. rewrite E2. rewrite El. unfold strand_str.
+    destruct Hst as [->|[->|[->| ->]]].
+    - change (1 =? 2) with false. change (1 =? 1) with true. cbv iota.
+      replace ((91 :: pos_str (tps p)) ++ 58 :: (l ++ [d]) ++ [93; 40; 43; 41])
+        with (((91 :: pos_str (tps p)) ++ 58 :: (l ++ [d]) ++ [93; 40]) ++ [43; 41]).
+      + rewrite rev_two. reflexivity.
+      + repeat rewrite <- app_assoc. cbn [app]. repeat rewrite <- app_assoc. reflexivity.
+    - change (-1 =? 2) with false. change (-1 =? 1) with false. change (-1 =? -1) with true. cbv iota.
+      replace ((91 :: pos_str (tps p)) ++ 58 :: (l ++ [d]) ++ [93; 40; 45; 41])
+        with (((91 :: pos_str (tps p)) ++ 58 :: (l ++ [d]) ++ [93; 40]) ++ [45; 41]).
+      + rewrite rev_two. reflexivity.
+      + repeat rewrite <- app_assoc. cbn [app]. repeat rewrite <- app_assoc. reflexivity.
+    - change (0 =? 2) with false. change (0 =? 1) with false. change (0 =? -1) with false. cbv iota.
+      replace ((91 :: pos_str (tps p)) ++ 58 :: (l ++ [d]) ++ [93; 40; 63; 41])
+        with (((91 :: pos_str (tps p)) ++ 58 :: (l ++ [d]) ++ [93; 40]) ++ [63; 41]).
+      + rewrite rev_two. reflexivity.
+      + repeat rewrite <- app_assoc. cbn [app]. repeat rewrite <- app_assoc. reflexivity.
+    - change (2 =? 2) with true. cbv iota.
+      replace ((91 :: pos_str (tps p)) ++ 58 :: (l ++ [d]) ++ [93])
+        with (((91 :: pos_str (tps p)) ++ 58 :: l) ++ [d; 93]).
+      + rewrite rev_two. reflexivity.
+      + repeat rewrite <- app_assoc. cbn [app]. repeat rewrite <- app_assoc. reflexivity. }
+  rewrite Hm2. cbn [bind].
+  unfold is_digit in Hd. apply andb_true_iff in Hd. destruct Hd as [Hd1 Hd2].
+  apply Z.leb_le in Hd1. apply Z.leb_le in Hd2.
+  destruct p as [s e st]. cbn [tps tpe tst] in *.
+  destruct Hst as [->|[->|[->| ->]]].
+  - change (1 =? 2) with false. change (1 =? 1) with true. cbv iota.
+    change (43 =? 45) with false. change (43 =? 43) with true. cbv iota. cbn [bind]. rewrite Hle'. reflexivity.
+  - change (-1 =? 2) with false. change (-1 =? 1) with false. change (-1 =? -1) with true. cbv iota.
+    change (45 =? 45) with true. cbv iota. cbn [bind]. rewrite Hle'. reflexivity.
+  - change (0 =? 2) with false. change (0 =? 1) with false. change (0 =? -1) with false. cbv iota.
+    change (63 =? 45) with false. change (63 =? 43) with false. change (63 =? 63) with true. cbv iota.
+    cbn [bind]. rewrite Hle'. reflexivity.
+  - change (2 =? 2) with true. cbv iota.
+    destruct (Z.eqb_spec d 45) as [X|X]; [lia|]. destruct (Z.eqb_spec d 43) as [Y|Y]; [lia|].
+    destruct (Z.eqb_spec d 63) as [W|W]; [lia|].
+    assert (Hno : cmem 40 (part_str (mkTpart s e 2)) = false).
+    { unfold part_str, strand_str. cbn [tps tpe tst]. change (2 =? 2) with true. cbv iota.
+      unfold cmem. repeat rewrite existsb_app. cbn [existsb].
+      fold (cmem 40 (pos_str s)). fold (cmem 40 (pos_str e)).
+      rewrite (cmem_okc 40 _ Cs eq_refl). rewrite (cmem_okc 40 _ Ce eq_refl). reflexivity. }
+    rewrite Hno. cbn [negb bind]. rewrite Hle'. reflexivity.
+Qed.
+
+(* ---- "a, b, c".split(", ") ---- *)
+Lemma split_cs_nocomma : forall a, cmem 44 a = false -> split_cs a = [a].
+Proof.
+  unfold cmem. induction a as [|x r IH]; intro H; [reflexivity|].
+  cbn [existsb] in H. apply orb_false_iff in H. destruct H as [H1 H2].
+  cbn [split_cs]. rewrite Z.eqb_sym in H1. rewrite H1. cbn [andb].
+  destruct r as [|y r']; [reflexivity|]. rewrite (IH H2). reflexivity.
+Qed.
+
+Lemma split_cs_app : forall a rest, cmem 44 a = false ->
+  split_cs (a ++ 44 :: 32 :: rest) = a :: split_cs rest.
+Proof.
+  unfold cmem. induction a as [|x r IH]; intros rest H.
+  - cbn [app split_cs]. change (44 =? 44) with true. change (32 =? 32) with true. reflexivity.
+  - cbn [existsb] in H. apply orb_false_iff in H. destruct H as [H1 H2].
+    rewrite Z.eqb_sym in H1.
+    change ((x :: r) ++ 44 :: 32 :: rest) with (x :: (r ++ 44 :: 32 :: rest)).
+    cbn [split_cs]. rewrite H1. cbn [andb].
+    destruct (r ++ 44 :: 32 :: rest) as [|y t] eqn:E.
+    + destruct r; discriminate.
+    + rewrite <- E. rewrite (IH rest H2). reflexivity.
+Qed.
+
+Lemma split_cs_join : forall parts, parts <> [] -> Forall (fun s => cmem 44 s = false) parts ->
+  split_cs (join [44; 32] parts) = parts.
+Proof.
+  induction parts as [|x r IH]; intros Hne HF; [congruence|].
+  inversion HF as [|? ? Hx Hr]; subst. cbn [join]. destruct r as [|y r'].
+  - apply split_cs_nocomma. assumption.
+  - change (x ++ [44; 32] ++ join [44; 32] (y :: r')) with (x ++ 44 :: 32 :: join [44; 32] (y :: r')).
+    rewrite (split_cs_app x _ Hx). rewrite IH; [reflexivity|discriminate|assumption].
+Qed.
+
+Lemma mapM_parse_parts : forall ps, Forall wf_tpart ps -> mapM parse_single (map part_str ps) = Ok ps.
+Proof.
+  induction ps as [|p r IH]; intro HF; [reflexivity|].
+  inversion HF as [|? ? Hp Hr]; subst. cbn [map mapM]. rewrite (parse_single_part_str _ Hp). cbn [bind].
+  rewrite (IH Hr). reflexivity.
+Qed.
+
+Lemma cmem_app : forall c a b, cmem c (a ++ b) = cmem c a || cmem c b.
+Proof. intros. unfold cmem. apply existsb_app. Qed.
+
+Inductive wf_tloc : tloc -> Prop :=
+| wf_single : forall p, wf_tpart p -> wf_tloc (TSingle p)
+| wf_compound : forall op ps, cmem 123 op = false -> (2 <= length ps)%nat -> Forall wf_tpart ps ->
+    wf_tloc (TCompound op ps).
+
+Theorem loc_codec : forall t, wf_tloc t -> loc_from_string (loc_str t) = Ok t.
+Proof.
+  intros t H. destruct H as [p Hp | op ps Hop Hlen HF].
+  - cbn [loc_str]. unfold loc_from_string.
+    rewrite (cmem_partc 123 _ (part_str_chars _ Hp) eq_refl). cbn [negb].
+    rewrite (parse_single_part_str _ Hp). reflexivity.
+  - cbn [loc_str]. unfold loc_from_string.
+    assert (Hin : cmem 123 (op ++ [123] ++ join [44; 32] (map part_str ps) ++ [125]) = true).
+    { rewrite cmem_app. rewrite cmem_app. unfold cmem at 2. cbn [existsb]. change (123 =? 123) with true.
+      cbn [orb]. apply orb_true_r. }
+    rewrite Hin. cbn [negb].
+    replace (op ++ [123] ++ join [44; 32] (map part_str ps) ++ [125])
+      with ((op ++ 123 :: join [44; 32] (map part_str ps)) ++ [125])
+      by (repeat rewrite <- app_assoc; reflexivity).
+    rewrite removelast_last. rewrite (split1_app 123 _ _ Hop).
+    rewrite split_cs_join.
+    + rewrite (mapM_parse_parts _ HF). cbn [bind].
+      destruct ps as [|a [|b r]]; cbn [length] in Hlen; try lia. reflexivity.
+    + destruct ps; [cbn [length] in Hlen; lia | discriminate].
+    + apply Forall_forall. intros s Hs. apply in_map_iff in Hs. destruct Hs as [p [<- Hp]].
+      rewrite Forall_forall in HF. exact (cmem_partc 44 _ (part_str_chars _ (HF p Hp)) eq_refl).
+Qed.
+
+End TextProofs.
+
+(* ====================================================================================
+   Histories: the value of a call does not depend on what was called or mutated before
+   ==================================================================================== *)
+Lemma history_length : forall ops h, length (run_history h ops) = length ops.
+Proof.
+  induction ops as [|o r IH]; intros h; [reflexivity|].
+  cbn [run_history]. destruct (hstep h o) as [h' out]. cbn [length]. now rewrite IH.
+Qed.
+
+(* the output of a call is a function of the call alone *)
+Lemma hstep_call_out : forall h fn p, snd (hstep h (HCall fn p)) = run_call fn p.
+Proof. reflexivity. Qed.
+
+Lemma history_independent : forall ops h i fn p,
+  nth_error ops i = Some (HCall fn p) ->
+  nth_error (run_history h ops) i = Some (run_call fn p).
+Proof.
+  induction ops as [|o r IH]; intros h i fn p H.
+  - destruct i; discriminate.
+  - cbn [run_history]. destruct (hstep h o) as [h' out] eqn:E. destruct i as [|i].
+    + cbn in H. injection H as ->. cbn in E. injection E as _ <-. reflexivity.
+    + cbn in H. cbn [nth_error]. now apply IH.
+Qed.
+
+(* two histories with the same call at some positions give the same value there *)
+Lemma history_same_call : forall ops1 ops2 h1 h2 i j fn p,
+  nth_error ops1 i = Some (HCall fn p) -> nth_error ops2 j = Some (HCall fn p) ->
+  nth_error (run_history h1 ops1) i = nth_error (run_history h2 ops2) j.
+Proof.
+  intros. rewrite (history_independent _ _ _ _ _ H), (history_independent _ _ _ _ _ H0). reflexivity.
+Qed.
+
+(* frame: a call leaves every existing object as it is (it only allocates) ... *)
+Lemma hstep_call_frame : forall h fn p j, (j < length h)%nat ->
+  nth_error (fst (hstep h (HCall fn p))) j = nth_error h j.
+Proof. intros. cbn. now apply nth_error_app1. Qed.
+
+Lemma set_nth_length : forall A n (x : A) l, length (set_nth n x l) = length l.
+Proof. induction n; destruct l; cbn; intros; auto. Qed.
+
+Lemma set_nth_other : forall A n (x : A) l j, j <> n -> nth_error (set_nth n x l) j = nth_error l j.
+Proof.
+  induction n; destruct l; intros j Hj; cbn; try reflexivity.
+  - destruct j; [congruence|reflexivity].
+  - destruct j; [reflexivity|]. cbn. apply IHn. congruence.
+Qed.
+
+(* ... and a mutator changes the addressed object only *)
+Lemma hstep_mut_frame : forall h k a x j, j <> Z.to_nat a ->
+  nth_error (fst (hstep h (HMut k a x))) j = nth_error h j /\
+  length (fst (hstep h (HMut k a x))) = length h.
+Proof.
+  intros h k a x j Hj. cbn [hstep]. destruct (a <? 0); [split; reflexivity|].
+  destruct (nth_error h (Z.to_nat a)) as [l|]; [|split; reflexivity].
+  destruct (mutate k x l) as [l' out]. cbn [fst]. split; [now apply set_nth_other|apply set_nth_length].
+Qed.
+
+(* passing an object to a function (mutator 6) does not change it *)
+Lemma mutate_pass_unchanged : forall x l, fst (mutate 6 x l) = l.
+Proof. reflexivity. Qed.
+
+(* ---- flat encoding of strings and histories reads back ---- *)
+Lemma dRep_dZ : forall p r, dRep dZ (length p) (p ++ r) = Some (p, r).
+Proof. induction p as [|x p IH]; intros r; cbn; [reflexivity|]. now rewrite IH. Qed.
+
+Lemma dList_dZ : forall p r, dList dZ (zlen p :: p ++ r) = Some (p, r).
+Proof.
+  intros p r. unfold dList, zlen.
+  assert (H : Z.of_nat (length p) <? 0 = false) by (apply Z.ltb_ge; lia).
+  rewrite H, Nat2Z.id. apply dRep_dZ.
+Qed.
+
+Lemma flat_map_single : forall (s : list Z), flat_map (fun c => [c]) s = s.
+Proof. induction s; cbn; congruence. Qed.
+
+Lemma dStr_eStr : forall s, Text.dStr (Text.eStr s) = Some (s, []).
+Proof.
+  intros s. unfold Text.dStr, Text.eStr, eList. rewrite flat_map_single.
+  rewrite <- (app_nil_r s) at 2. apply dList_dZ.
+Qed.
+
+Lemma dHop_eHop : forall o r, dHop (eHop o ++ r) = Some (o, r).
+Proof.
+  intros [fn p|k a x] r; [|reflexivity].
+  cbn [eHop app dHop]. now rewrite dList_dZ.
+Qed.
+
+Lemma dRep_dHop : forall ops r, dRep dHop (length ops) (flat_map eHop ops ++ r) = Some (ops, r).
+Proof.
+  induction ops as [|o ops IH]; intros r; [reflexivity|].
+  cbn [length dRep flat_map]. rewrite <- app_assoc, dHop_eHop, IH. reflexivity.
+Qed.
+
+(* the executable entry point on an encoded history is run_history *)
+Lemma run_C04_history : forall ops, run_C04 300 (eList eHop ops) = eOuts (run_history [] ops).
+Proof.
+  intros ops. unfold run_C04, eList, dList, zlen.
+  assert (H : Z.of_nat (length ops) <? 0 = false) by (apply Z.ltb_ge; lia).
+  rewrite H, Nat2Z.id. rewrite <- (app_nil_r (flat_map eHop ops)). now rewrite dRep_dHop.
+Qed.
+
+(* every other function id of the entry point is the single call *)
+Lemma run_C04_call : forall fn p, fn <> 300 -> run_C04 fn p = run_call fn p.
+Proof.
+  intros fn p H. unfold run_C04.
+  destruct fn as [|q|q]; try reflexivity.
+  repeat (destruct q as [q|q|]; try reflexivity). congruence.
+Qed.
+
+(* ---- the text clause under histories: whatever happened before (parses of the same text, in-place
+   changes of their results), a location's text reads back to that location (stated for any codec
+   lemma; Theorems.v supplies TextProofs.loc_codec) ---- *)
+
+Lemma text_reads_back_in_history : forall (wf : Text.tloc -> Prop),
+  (forall t, wf t -> Text.loc_from_string (Text.loc_str t) = Ok t) ->
+  forall ops h i t, wf t ->
+  nth_error ops i = Some (HCall 14 (Text.eStr (Text.loc_str t))) ->
+  nth_error (run_history h ops) i = Some (0 :: Text.eTloc t).
+Proof.
+  intros wf codec ops h i t Ht H. rewrite (history_independent _ _ _ _ _ H).
+  unfold run_call. rewrite dStr_eStr, (codec t Ht). reflexivity.
+Qed.
+
+(* ---- specification 116: all results equal ---- *)
+Lemma list_eqb_Z_eq : forall a b : list Z, list_eqb Z.eqb a b = true -> a = b.
+Proof.
+  induction a as [|x a IH]; destruct b as [|y b]; cbn; intros H; try discriminate; [reflexivity|].
+  apply andb_prop in H as [H1 H2]. apply Z.eqb_eq in H1. subst. f_equal. now apply IH.
+Qed.
+
+Lemma all_same_sound : forall outs, all_same outs = true ->
+  forall a b, In a outs -> In b outs -> a = b.
+Proof.
+  assert (Hhd : forall outs x, all_same (x :: outs) = true -> forall a, In a outs -> a = x).
+  { induction outs as [|y outs IH]; intros x H a Ha; [destruct Ha|].
+    cbn [all_same] in H. apply andb_prop in H as [H1 H2]. apply list_eqb_Z_eq in H1. subst y.
+    destruct Ha as [<-|Ha]; [reflexivity|]. now apply IH. }
+  induction outs as [|x outs IH]; intros H a b Ha Hb; [destruct Ha|].
+  assert (Ht : all_same outs = true).
+  { destruct outs as [|y outs]; [reflexivity|]. cbn [all_same] in H. now apply andb_prop in H as [_ H]. }
+  destruct Ha as [<-|Ha], Hb as [<-|Hb]; try reflexivity.
+  - symmetry. now apply (Hhd outs).
+  - now apply (Hhd outs).
+  - now apply IH.
+Qed.
+
+(* ====================================================================================
+   connect_locations without a wrap point, ANY number of arguments, multi-part arguments included:
+   closed form, independence of the argument order, idempotence
+   ==================================================================================== *)
+From Coq Require Import Sorting.Permutation.
+
+Definition red1 (l : loc) : loc :=
+  match l with [p] => [p] | _ => [mkPart (lstart l) (lend l) (lstrand l)] end.
+
+Lemma reduce_parts_line l : bridges l = false -> reduce_parts l None = Ok (red1 l).
+Proof.
+  destruct l as [|p [|q r]]; intros H; try reflexivity.
+  unfold reduce_parts. rewrite H. reflexivity.
+Qed.
+
+Lemma mapM_ok {A B} (f : A -> res B) (g : A -> B) l :
+  (forall x, In x l -> f x = Ok (g x)) -> mapM f l = Ok (map g l).
+Proof.
+  induction l as [|x l IH]; intros H; [reflexivity|].
+  cbn [mapM map]. rewrite (H x (or_introl eq_refl)). cbn [bind].
+  rewrite IH by (intros y Hy; apply H; now right). reflexivity.
+Qed.
+
+Lemma existsb_false_in {A} (f : A -> bool) l : existsb f l = false -> forall x, In x l -> f x = false.
+Proof.
+  intros H x Hx. destruct (f x) eqn:E; [|reflexivity].
+  assert (existsb f l = true) by (apply existsb_exists; eauto). congruence.
+Qed.
+
+Lemma connect_line_closed f locs : locs <> [] ->
+  connect (S f) locs None =
+    if existsb bridges locs then Err E_Value else hull (map red1 locs).
+Proof.
+  intros Hne. destruct locs as [|l0 r0]; [congruence|].
+  cbn [connect]. destruct (existsb bridges (l0 :: r0)) eqn:E; [reflexivity|].
+  rewrite (mapM_ok _ red1).
+  - reflexivity.
+  - intros x Hx. apply reduce_parts_line. now apply (existsb_false_in _ _ E).
+Qed.
+
+Lemma existsb_perm {A} (f : A -> bool) a b : Permutation a b -> existsb f a = existsb f b.
+Proof.
+  intros P. destruct (existsb f a) eqn:Ea, (existsb f b) eqn:Eb; try reflexivity.
+  - apply existsb_exists in Ea as [x [Hx Hf]].
+    assert (existsb f b = true) by (apply existsb_exists; exists x; split; [eapply Permutation_in; eauto|exact Hf]).
+    congruence.
+  - apply existsb_exists in Eb as [x [Hx Hf]].
+    assert (existsb f a = true)
+      by (apply existsb_exists; exists x; split; [eapply Permutation_in; [apply Permutation_sym|]; eauto|exact Hf]).
+    congruence.
+Qed.
+
+Lemma lmin_perm a b : Permutation a b -> lmin a = lmin b.
+Proof.
+  intros P. destruct a as [|x a].
+  - apply Permutation_nil in P. now subst.
+  - assert (Hb : b <> []) by (intros ->; apply Permutation_sym, Permutation_nil in P; discriminate).
+    assert (Ha : x :: a <> []) by discriminate.
+    pose proof (lmin_in _ Ha) as H1. pose proof (lmin_in _ Hb) as H2.
+    pose proof (lmin_le b _ (Permutation_in _ P H1)).
+    pose proof (lmin_le (x :: a) _ (Permutation_in _ (Permutation_sym P) H2)). lia.
+Qed.
+
+Lemma lmax_perm a b : Permutation a b -> lmax a = lmax b.
+Proof.
+  intros P. destruct a as [|x a].
+  - apply Permutation_nil in P. now subst.
+  - assert (Hb : b <> []) by (intros ->; apply Permutation_sym, Permutation_nil in P; discriminate).
+    assert (Ha : x :: a <> []) by discriminate.
+    pose proof (lmax_in _ Ha) as H1. pose proof (lmax_in _ Hb) as H2.
+    pose proof (lmax_ge b _ (Permutation_in _ P H1)).
+    pose proof (lmax_ge (x :: a) _ (Permutation_in _ (Permutation_sym P) H2)). lia.
+Qed.
+
+(* the common strand: the strand every location has, None (2) when they differ *)
+Lemma common_strand_all locs s : locs <> [] -> (forall l, In l locs -> lstrand l = s) -> common_strand locs = s.
+Proof.
+  destruct locs as [|l r]; [congruence|]. intros _ H. unfold common_strand.
+  assert (E : forallb (fun q => lstrand q =? lstrand l) r = true).
+  { apply forallb_forall. intros q Hq. apply Z.eqb_eq. rewrite (H q), (H l); [reflexivity|now left|now right]. }
+  rewrite E. apply H. now left.
+Qed.
+
+Lemma common_strand_differ locs a b : In a locs -> In b locs -> lstrand a <> lstrand b ->
+  common_strand locs = S_None.
+Proof.
+  destruct locs as [|l r]; [intros []|]. intros Ha Hb Hd. unfold common_strand.
+  destruct (forallb (fun q => lstrand q =? lstrand l) r) eqn:E; [|reflexivity].
+  exfalso. apply Hd.
+  assert (H : forall q, In q (l :: r) -> lstrand q = lstrand l).
+  { intros q [<-|Hq]; [reflexivity|]. rewrite forallb_forall in E. now apply Z.eqb_eq, E. }
+  rewrite (H a Ha), (H b Hb). reflexivity.
+Qed.
+
+Lemma all_or_differ (locs : list loc) : forall s,
+  (forall l, In l locs -> lstrand l = s) \/ (exists a, In a locs /\ lstrand a <> s).
+Proof.
+  induction locs as [|l r IH]; intros s; [left; intros l []|].
+  destruct (Z.eq_dec (lstrand l) s) as [E|E].
+  - destruct (IH s) as [H|[a [Ha Hd]]].
+    + left. intros q [<-|Hq]; auto.
+    + right. exists a. split; [now right|exact Hd].
+  - right. exists l. split; [now left|exact E].
+Qed.
+
+Lemma common_strand_perm a b : Permutation a b -> common_strand a = common_strand b.
+Proof.
+  intros P. destruct a as [|x a].
+  - apply Permutation_nil in P. now subst.
+  - assert (Hb : b <> []) by (intros ->; apply Permutation_sym, Permutation_nil in P; discriminate).
+    destruct (all_or_differ (x :: a) (lstrand x)) as [H|[y [Hy Hd]]].
+    + rewrite (common_strand_all (x :: a) (lstrand x)) by (auto; discriminate).
+      symmetry. apply common_strand_all; [exact Hb|].
+      intros l Hl. apply H. eapply Permutation_in; [apply Permutation_sym; exact P|exact Hl].
+    + rewrite (common_strand_differ (x :: a) y x) by (auto; now left).
+      symmetry. apply (common_strand_differ b y x); [eapply Permutation_in; eauto|eapply Permutation_in; [exact P|now left]|exact Hd].
+Qed.
+
+Lemma hull_perm a b : Permutation a b -> hull a = hull b.
+Proof.
+  intros P. unfold hull.
+  rewrite (lmin_perm _ _ (Permutation_map lstart P)), (lmax_perm _ _ (Permutation_map lend P)),
+          (common_strand_perm _ _ P). reflexivity.
+Qed.
+
+Lemma connect_fuel_S locs : exists f, connect_fuel locs = S f.
+Proof. unfold connect_fuel. exists (2 * length locs + 7)%nat. lia. Qed.
+
+Lemma connect_line_order locs locs' : Permutation locs locs' ->
+  connect_locations locs None = connect_locations locs' None.
+Proof.
+  intros P. destruct locs as [|l r].
+  - apply Permutation_nil in P. now subst.
+  - assert (Hb : locs' <> []) by (intros ->; apply Permutation_sym, Permutation_nil in P; discriminate).
+    unfold connect_locations.
+    destruct (connect_fuel_S (l :: r)) as [f ->]. destruct (connect_fuel_S locs') as [f' ->].
+    rewrite !connect_line_closed by (auto; discriminate).
+    rewrite (existsb_perm bridges _ _ P), (hull_perm _ _ (Permutation_map red1 P)). reflexivity.
+Qed.
+
+(* the linear result in closed form (any arguments) ... *)
+Lemma connect_line_nary locs : locs <> [] -> existsb bridges locs = false ->
+  connect_locations locs None = hull (map red1 locs).
+Proof.
+  intros Hne Hb. unfold connect_locations. destruct (connect_fuel_S locs) as [f ->].
+  rewrite connect_line_closed by exact Hne. now rewrite Hb.
+Qed.
+
+(* ... and connecting it again gives it back *)
+Lemma connect_line_idem locs r : connect_locations locs None = Ok r -> connect_locations [r] None = Ok r.
+Proof.
+  intros H. destruct locs as [|l0 r0]; [discriminate|].
+  unfold connect_locations in H. destruct (connect_fuel_S (l0 :: r0)) as [f Hf]. rewrite Hf in H.
+  rewrite connect_line_closed in H by discriminate.
+  destruct (existsb bridges (l0 :: r0)); [discriminate|].
+  unfold hull in H.
+  remember (lmin (map lstart (map red1 (l0 :: r0)))) as a eqn:Ea.
+  remember (lmax (map lend (map red1 (l0 :: r0)))) as b eqn:Eb.
+  remember (common_strand (map red1 (l0 :: r0))) as s eqn:Es.
+  clear Ea Eb Es.
+  unfold mkFL in H. destruct (b <? a) eqn:E; [discriminate|].
+  change (Ok [mkPart a b s] = Ok r) in H. injection H as <-.
+  rewrite connect_line_nary; [|discriminate|reflexivity].
+  change (hull (map red1 [[mkPart a b s]])) with (do p <- mkFL a b s; Ok [p]).
+  unfold mkFL. rewrite E. reflexivity.
+Qed.
+
+(* ====================================================================================
+   _is_wrapping_shorter does not depend on the order of the locations (the sort key (start, end)
+   makes the reference location's END unique); ring connect when wrapping is not shorter
+   ==================================================================================== *)
+Lemma insert_by_perm' {A} (lt : A -> A -> bool) x : forall l, Permutation (x :: l) (insert_by lt x l).
+Proof.
+  induction l as [|y l IH]; cbn; [apply Permutation_refl|].
+  destruct (lt x y); [apply Permutation_refl|].
+  eapply Permutation_trans; [apply perm_swap|]. now apply perm_skip.
+Qed.
+
+Lemma sort_by_perm' {A} (lt : A -> A -> bool) l : Permutation l (sort_by lt l).
+Proof.
+  unfold sort_by.
+  assert (H : forall l acc, Permutation (acc ++ l) (fold_left (fun acc x => insert_by lt x acc) l acc)).
+  { clear l. induction l as [|x l IH]; intros acc; cbn; [rewrite app_nil_r; apply Permutation_refl|].
+    eapply Permutation_trans; [|apply IH].
+    eapply Permutation_trans; [apply Permutation_sym, Permutation_middle|].
+    change (x :: acc ++ l) with ((x :: acc) ++ l).
+    apply Permutation_app_tail. apply insert_by_perm'. }
+  apply (H l []).
+Qed.
+
+Definition key_of (l : loc) : Z * Z := (lstart l, lend l).
+Lemma key_lt_spec a b : key_lt a b = true <->
+  lstart a < lstart b \/ (lstart a = lstart b /\ lend a < lend b).
+Proof. unfold key_lt. rewrite orb_true_iff, andb_true_iff, !Z.ltb_lt, Z.eqb_eq. tauto. Qed.
+
+Lemma key_lt_false a b : key_lt a b = false <->
+  lstart b < lstart a \/ (lstart a = lstart b /\ lend b <= lend a).
+Proof.
+  destruct (key_lt a b) eqn:E.
+  - apply key_lt_spec in E. split; [discriminate|lia].
+  - split; [intros _|reflexivity].
+    assert (H : ~ (lstart a < lstart b \/ (lstart a = lstart b /\ lend a < lend b)))
+      by (rewrite <- key_lt_spec; congruence). lia.
+Qed.
+
+(* the head of the list is not greater than any later element *)
+Definition hd_min (l : list loc) : Prop :=
+  match l with [] => True | h :: t => Forall (fun y => key_lt y h = false) t end.
+
+Lemma insert_hd_min x l : hd_min l -> hd_min (insert_by key_lt x l).
+Proof.
+  destruct l as [|h t]; cbn [insert_by hd_min]; [constructor|]. intros H.
+  destruct (key_lt x h) eqn:E.
+  - cbn [hd_min]. constructor.
+    + apply key_lt_spec in E. apply key_lt_false. lia.
+    + rewrite Forall_forall in *. intros y Hy. specialize (H y Hy).
+      apply key_lt_spec in E. apply key_lt_false in H. apply key_lt_false. lia.
+  - cbn [hd_min]. rewrite Forall_forall in *. intros y Hy.
+    apply (Permutation_in _ (Permutation_sym (insert_by_perm' key_lt x t))) in Hy.
+    destruct Hy as [<-|Hy]; [exact E|now apply H].
+Qed.
+
+Lemma sort_hd_min l : hd_min (sort_by key_lt l).
+Proof.
+  unfold sort_by.
+  assert (H : forall l acc, hd_min acc -> hd_min (fold_left (fun acc x => insert_by key_lt x acc) l acc)).
+  { clear l. induction l as [|x l IH]; intros acc Hacc; cbn; [exact Hacc|]. apply IH. now apply insert_hd_min. }
+  apply H. exact I.
+Qed.
+
+Definition far (w : Z) (first second : loc) : bool := w / 2 <? lstart second - lend first.
+
+Lemma wrapping_shorter_unfold locs w : existsb bridges locs = false ->
+  wrapping_shorter locs w =
+    match sort_by key_lt locs with [] => false | f :: r => existsb (far w f) r end.
+Proof. intros H. unfold wrapping_shorter. rewrite H. reflexivity. Qed.
+
+Lemma part_eq_dec (a b : part) : {a = b} + {a <> b}.
+Proof. decide equality; apply Z.eq_dec. Qed.
+Lemma loc_eq_dec (a b : loc) : {a = b} + {a <> b}.
+Proof. apply list_eq_dec, part_eq_dec. Qed.
+
+Lemma existsb_in_true {A} (f : A -> bool) l x : In x l -> f x = true -> existsb f l = true.
+Proof. intros. apply existsb_exists. eauto. Qed.
+
+Lemma existsb_ext' {A} (f g : A -> bool) l : (forall x, f x = g x) -> existsb f l = existsb g l.
+Proof. intros H. induction l as [|x l IH]; [reflexivity|]. cbn. now rewrite H, IH. Qed.
+
+Lemma heads_far_equal w f r f' r' :
+  Permutation (f :: r) (f' :: r') ->
+  Forall (fun y => key_lt y f = false) r -> Forall (fun y => key_lt y f' = false) r' ->
+  existsb (far w f) r = existsb (far w f') r'.
+Proof.
+  intros P Hf Hf'.
+  (* the two heads have the same key *)
+  assert (K : lstart f = lstart f' /\ lend f = lend f').
+  { destruct (loc_eq_dec f f') as [->|Hne]; [split; reflexivity|].
+    assert (I1 : In f' r).
+    { pose proof (Permutation_in f' (Permutation_sym P) (or_introl eq_refl)) as [E|I]; [congruence|exact I]. }
+    assert (I2 : In f r').
+    { pose proof (Permutation_in f P (or_introl eq_refl)) as [E|I]; [congruence|exact I]. }
+    rewrite Forall_forall in Hf, Hf'. pose proof (Hf f' I1) as A. pose proof (Hf' f I2) as B.
+    apply key_lt_false in A. apply key_lt_false in B. lia. }
+  destruct K as [K1 K2].
+  assert (Efar : forall s, far w f' s = far w f s) by (intros s; unfold far; now rewrite K2).
+  rewrite (existsb_ext' _ _ r' Efar).
+  destruct (loc_eq_dec f f') as [->|Hne].
+  - apply existsb_perm. eapply Permutation_cons_inv. exact P.
+  - assert (I1 : In f' r).
+    { pose proof (Permutation_in f' (Permutation_sym P) (or_introl eq_refl)) as [E|I]; [congruence|exact I]. }
+    assert (I2 : In f r').
+    { pose proof (Permutation_in f P (or_introl eq_refl)) as [E|I]; [congruence|exact I]. }
+    pose proof (existsb_perm (far w f) _ _ P) as E. cbn [existsb] in E.
+    assert (C : far w f f' = far w f f) by (unfold far; now rewrite K1).
+    rewrite C in E. destruct (far w f f) eqn:Ec.
+    + rewrite (existsb_in_true _ _ f' I1) by (now rewrite C).
+      rewrite (existsb_in_true _ _ f I2) by exact Ec. reflexivity.
+    + exact E.
+Qed.
+
+Lemma wrapping_shorter_order locs locs' w : Permutation locs locs' ->
+  wrapping_shorter locs w = wrapping_shorter locs' w.
+Proof.
+  intros P. unfold wrapping_shorter. rewrite (existsb_perm bridges _ _ P).
+  destruct (existsb bridges locs'); [reflexivity|].
+  pose proof (sort_hd_min locs) as H1. pose proof (sort_hd_min locs') as H2.
+  pose proof (sort_by_perm' key_lt locs) as P1. pose proof (sort_by_perm' key_lt locs') as P2.
+  assert (PP : Permutation (sort_by key_lt locs) (sort_by key_lt locs')).
+  { eapply Permutation_trans; [apply Permutation_sym, P1|]. eapply Permutation_trans; [exact P|exact P2]. }
+  destruct (sort_by key_lt locs) as [|f r], (sort_by key_lt locs') as [|f' r'].
+  - reflexivity.
+  - apply Permutation_nil in PP. discriminate.
+  - apply Permutation_sym, Permutation_nil in PP. discriminate.
+  - now apply heads_far_equal.
+Qed.
+
+(* ring connect when no argument runs over the origin and wrapping is not shorter: the linear hull *)
+Lemma bridges_red1 l : bridges (red1 l) = false.
+Proof. destruct l as [|p [|q r]]; reflexivity. Qed.
+Lemma red1_idem l : red1 (red1 l) = red1 l.
+Proof. destruct l as [|p [|q r]]; reflexivity. Qed.
+Lemma reduce_parts_nobridge l w : bridges l = false -> reduce_parts l w = Ok (red1 l).
+Proof.
+  destruct l as [|p [|q r]]; intros H; try reflexivity; unfold reduce_parts; rewrite H; reflexivity.
+Qed.
+Lemma existsb_bridges_red locs : existsb bridges (map red1 locs) = false.
+Proof. induction locs as [|l r IH]; [reflexivity|]. cbn [map existsb]. now rewrite bridges_red1, IH. Qed.
+
+Lemma connect_line_red locs : locs <> [] -> connect_line (map red1 locs) = hull (map red1 locs).
+Proof.
+  intros Hne. unfold connect_line. destruct (map red1 locs) eqn:E; [destruct locs; [congruence|discriminate]|].
+  rewrite <- E. rewrite existsb_bridges_red.
+  rewrite (mapM_ok _ red1).
+  - rewrite map_map. rewrite (map_ext _ red1 red1_idem). reflexivity.
+  - intros x Hx. apply reduce_parts_line. apply in_map_iff in Hx as [y [<- _]]. apply bridges_red1.
+Qed.
+
+Lemma connect_ring_nowrap f locs w : locs <> [] -> 0 < w -> existsb bridges locs = false ->
+  wrapping_shorter (map red1 locs) w = false ->
+  connect (S f) locs (Some w) = hull (map red1 locs).
+Proof.
+  intros Hne Hw Hb Hs. destruct locs as [|l0 r0] eqn:El; [congruence|]. rewrite <- El in *.
+  assert (Hred : mapM (fun l => reduce_parts l (Some w)) locs = Ok (map red1 locs)).
+  { apply mapM_ok. intros x Hx. apply reduce_parts_nobridge. now apply (existsb_false_in _ _ Hb). }
+  assert (Hm : merge_over_origin (map red1 locs) w = do u <- hull (map red1 locs); Ok [u]).
+  { unfold merge_over_origin, split_sections. rewrite Hs. cbn [negb bind].
+    destruct (map red1 locs) eqn:E; [subst locs; discriminate|]. rewrite <- E.
+    rewrite connect_line_red by (subst locs; discriminate).
+    destruct (hull (map red1 locs)) as [u|k]; [|reflexivity]. cbn [bind].
+    destruct (is_compound u); reflexivity. }
+  subst locs. cbn [connect]. rewrite Hb. fold (map red1 (l0 :: r0)) in *.
+  change (mapM (fun l => reduce_parts l (Some w)) (l0 :: r0)) with (mapM (fun l => reduce_parts l (Some w)) (l0 :: r0)).
+  rewrite Hred. cbn [bind].
+  assert (Hw' : (w <=? 0) = false) by (apply Z.leb_gt; lia). rewrite Hw'.
+  rewrite Hm. destruct (hull (map red1 (l0 :: r0))) as [u|k]; reflexivity.
+Qed.
+
+Lemma connect_ring_nowrap_order locs locs' w : locs <> [] -> 0 < w -> Permutation locs locs' ->
+  existsb bridges locs = false -> wrapping_shorter (map red1 locs) w = false ->
+  connect_locations locs (Some w) = hull (map red1 locs) /\
+  connect_locations locs' (Some w) = connect_locations locs (Some w).
+Proof.
+  intros Hne Hw P Hb Hs. destruct locs as [|l r].
+  - congruence.
+  - assert (Hne' : locs' <> []) by (intros ->; apply Permutation_sym, Permutation_nil in P; discriminate).
+    unfold connect_locations.
+    destruct (connect_fuel_S (l :: r)) as [f ->]. destruct (connect_fuel_S locs') as [f' ->].
+    rewrite connect_ring_nowrap; [|discriminate|exact Hw|exact Hb|exact Hs].
+    split; [reflexivity|].
+    rewrite connect_ring_nowrap; [|exact Hne'|exact Hw| |].
+    + apply hull_perm. apply Permutation_map. now apply Permutation_sym.
+    + now rewrite <- (existsb_perm bridges _ _ P).
+    + now rewrite <- (wrapping_shorter_order _ _ w (Permutation_map red1 P)).
+Qed.
+
+(* the end coordinate in the sort key is what makes this true: with the start alone as the key the
+   reference location of a tie depends on the argument order *)
+Definition wrapping_shorter_by (lt : loc -> loc -> bool) (locs : list loc) (w : Z) : bool :=
+  if existsb bridges locs then true else
+  match sort_by lt locs with
+  | [] => false
+  | first :: rest => existsb (fun second => w / 2 <? lstart second - lend first) rest
+  end.
+Definition start_only_lt (a b : loc) : bool := lstart a <? lstart b.
+
+Lemma wrapping_shorter_is_by_key locs w : wrapping_shorter locs w = wrapping_shorter_by key_lt locs w.
+Proof. reflexivity. Qed.
+
+Lemma wrapping_shorter_start_key_refuted : exists locs locs' w,
+  Permutation locs locs' /\
+  wrapping_shorter_by start_only_lt locs w = true /\ wrapping_shorter_by start_only_lt locs' w = false /\
+  wrapping_shorter locs w = true /\ wrapping_shorter locs' w = true.
+Proof.
+  exists [[mkPart 0 5 1]; [mkPart 0 12 1]; [mkPart 60 70 1]],
+         [[mkPart 0 12 1]; [mkPart 0 5 1]; [mkPart 60 70 1]], 100.
+  split; [apply perm_swap|]. repeat split; reflexivity.
+Qed.
